@@ -171,12 +171,12 @@ PROPS = {
     },
     "C13": {
         "level": "exploration",
-        "steps": [("hv", "C13x", {}), ("hv", "C13s", {"_scale": 0.5}), ("hv", "wasmapi", {}), ("hv", "cli", {}), ("py", "san", "miri", "thorough_only")],
+        "steps": [("hv", "C13x", {}), ("hv", "C13s", {"_scale": 0.5}), ("hv", "wasmapi", {}), ("hv", "wasme2e", {"_scale": 2.5}), ("hv", "cli", {}), ("py", "san", "miri", "thorough_only")],
         "rule": "(a) exhaustive: all lists of <= 4 spans over positions 0..5 (21 spans); random lists up to 200 spans; "
                 "(b) every lint list of the C01 document stream; clauses: output is a sub-multiset, kept lints pairwise disjoint, each "
                 "dropped lint starts inside a kept one; then fixes applied back to front == any order with offset bookkeeping; "
                 "(c) what the JS API reports (harper_wasm::Linter::lint: pairwise no common character, one-pass back-to-front fix through apply_suggestion) and what harper-cli lint "
-                "prints (labels per message and in total bounded by the largest pairwise-disjoint selection of the raw lints, for no / one / two --only-lint-with rules); "
+                "prints (labels per message and in total bounded by the largest pairwise-disjoint selection of the raw lints, for no / one / two --only-lint-with rules); (d) end to end: produced = union of the lints each default-on rule returns when it alone is switched on; reported = a long-lived harper_wasm::Linter::lint and a long-lived LintGroup + remove_overlaps (the CLI's path) over episodes that reuse a small clause pool in short and > 40-word sentences; the three clauses must hold between produced and reported; "
                 "non-trivial = list where something was dropped; distinct = hash(relative span pattern)",
         "assumptions": ["harper-cli prints no machine-readable spans: the CLI clause is a sound bound, not an exact comparison"],
     },
